@@ -11,11 +11,16 @@
 
   `buffer_is_valid = false` is assigned at the head of every function that assigns `vertex.src`:
   `step_impl`, `fixed_width_step_impl` (the join), `tessellate_last_edge`, `tessellate_first_edge`,
-  `close` — but NOT in `tessellate_empty_cap`.  All vertices of one such site share one `src`, so
-  between two resets the cache is right.  The vertices of an empty cap (a sub-path whose points all
-  merged into its first point) are therefore answered from the cache if the vertex emitted before
-  them had an `Edge` source: they report the interpolated attributes of that earlier vertex instead
-  of their own endpoint's (finding `C05-empty-cap-stale-attributes`; modelled as it is).
+  `close`, and — since /repo fix f1c9127a — `tessellate_empty_cap`.  All vertices of one such site
+  share one `src`; a read that follows a read of the same source without a reset returns the same
+  list (`Lyon.C05c.attrCache_read_again`), so resetting once per site and resetting before every
+  vertex are observationally the same: the model resets before every vertex.
+
+  Before f1c9127a `tessellate_empty_cap` did not reset: the vertices of an empty cap (a sub-path whose
+  points all merged into its first point) were answered from the cache when the vertex emitted before
+  them had an `Edge` source, and reported that earlier vertex's interpolated attributes instead of
+  their own endpoint's (finding `C05-empty-cap-stale-attributes`, found by the tie, fixed).  The
+  `reset` parameter of `AttrCache.read` is kept so that the former behaviour can still be stated.
 
   Mathlib-free: linked into the native model driver.
 -/
@@ -32,7 +37,7 @@ structure AttrCache (α : Type) where
   buf : List α
 
 /-- one `interpolated_attributes()` call on a vertex with source `s`; `reset`: the site that emits
-the vertex assigned `buffer_is_valid = false` before (every site except `tessellate_empty_cap`) -/
+the vertex assigned `buffer_is_valid = false` since the previous read -/
 def AttrCache.read (c : AttrCache α) (store : Nat → List α) (reset : Bool) (s : Src α) : List α × AttrCache α :=
   let c1 : AttrCache α := if reset then { c with valid := false } else c
   if c1.valid then (c1.buf, c1)
@@ -40,37 +45,20 @@ def AttrCache.read (c : AttrCache α) (store : Nat → List α) (reset : Bool) (
     | .endpoint id => (store id, c1)
     | .edge f t u => (lerpAttributes (store f) (store t) u, ⟨true, lerpAttributes (store f) (store t) u⟩)
 
-/-- is vertex number `k` inside one of the ranges `[lo, hi)`? -/
-def inRanges (rs : List (Nat × Nat)) (k : Nat) : Bool := rs.any (fun r => decide (r.1 ≤ k) && decide (k < r.2))
-
-/-- the attributes every vertex of the emission sequence reports, given the index ranges of the
-vertices emitted by `tessellate_empty_cap` -/
-def attrsSeq (store : Nat → List α) (caps : List (Nat × Nat)) :
-    List (VData α) → Nat → AttrCache α → List (List α)
-  | [], _, _ => []
-  | d :: ds, k, c =>
-    let r := c.read store (!inRanges caps k) d.src
-    r.1 :: attrsSeq store caps ds (k + 1) r.2
+/-- the attributes every vertex of the emission sequence reports (every emission site resets the
+cache) -/
+def attrsSeq (store : Nat → List α) : List (VData α) → AttrCache α → List (List α)
+  | [], _ => []
+  | d :: ds, c =>
+    let r := c.read store true d.src
+    r.1 :: attrsSeq store ds r.2
 
 section
 variable [Transc α] [Asin α] [FlatConst α]
 
-/-- the vertex index ranges emitted by `tessellate_empty_cap`: an `end` event that finds a single
-point in the window and `may_need_empty_cap` set (by a merged second point, or by `close`) -/
-def capRanges (e : Env α) (store : Nat → List α) (evs : List (IdEv α)) : List (Nat × Nat) :=
-  (evs.foldl (fun (acc : Run α × List (Nat × Nat)) ev =>
-    if acc.1.panicked then acc else
-      let r' := runEvent e store acc.1 ev
-      match ev with
-      | .end_ c =>
-        if (acc.1.st.mayNeedEmptyCap || (c && acc.1.st.buf.count == 1)) && acc.1.st.buf.count == 1 then
-          (r', acc.2 ++ [(acc.1.st.out.verts.length, r'.st.out.verts.length)])
-        else (r', acc.2)
-      | _ => (r', acc.2)) ((⟨St.new, unset, nanP, false⟩ : Run α), [])).2
-
 /-- what the vertex constructor reads from `interpolated_attributes()` for every vertex of the run -/
 def runAttrs (e : Env α) (store : Nat → List α) (evs : List (IdEv α)) : List (List α) :=
-  attrsSeq store (capRanges e store evs) (runEvents e store evs).st.out.verts 0 ⟨false, []⟩
+  attrsSeq store (runEvents e store evs).st.out.verts ⟨false, []⟩
 
 end
 
